@@ -27,7 +27,7 @@ def run(chk):
     plan = []
     for wi in range(40 if quick else 500):
         rng.seed("%d/c07-1/%d" % (chk.seed, wi))      # every world has its own stream: families do not disturb each other
-        sph = rng.random() < 0.4
+        sph = wi % 15 in (3, 4, 8, 9, 13, 14)      # 3, 9: date line; 4, 13: polar; 8, 14: any spherical; the Cartesian families use wi % 5 in (0, 1, 2)
         wj, sph, f = line_world(rng, spherical=sph, straight=rng.random() < 0.3, allow_mass_conserving=False, extra_area=0.0)
         if sph and rng.random() < 0.4:
             # high latitude or dateline-crossing trench
@@ -81,11 +81,17 @@ def run(chk):
             lon0 = -rng.uniform(176.5, 179.5)
             f["coordinates"] = [[round(lon0, 1), round(lat0 - 6, 1)], [round(lon0 + rng.uniform(-0.5, 0.5), 1), round(lat0 + 6, 1)]]
             f["dip point"] = [round(lon0 - 20, 1), round(lat0, 1)]
-            if rng.random() < 0.5:
+            if (wi // 3) % 2 == 1:
                 # the mirror image: just west of the date line with longitudes near +180, dipping east
                 f["coordinates"] = [[-c[0], c[1]] for c in f["coordinates"]]
                 f["dip point"] = [-f["dip point"][0], f["dip point"][1]]
             f.pop("sections", None)
+            # one straight segment, so that the queries below can be aimed at the inside of the slab on the far side of the cut
+            f["segments"] = [{"length": float(round(rng.uniform(3e5, 6e5))), "thickness": [float(round(rng.uniform(6e4, 1.2e5)))],
+                              "angle": [float(round(rng.uniform(30, 60), 1))]}]
+            f["composition models"] = [{"model": "uniform", "compositions": [0]}]
+            for k in ("temperature models", "grains models", "velocity models"):
+                f.pop(k, None)
         polar = sph and (not dateline) and wi % 3 == 1
         if polar:
             # a long, shallow slab hanging from a meridional trench at high latitude: near its tip at the high-latitude end
@@ -130,6 +136,23 @@ def run(chk):
             curve = [allpts[rng.randrange(25)] for _ in range(40)]      # near the apex of the bulge
         for qi in range(40):
             pos, d = line_query(rng, wj, sph, f)
+            if dateline and qi % 2 == 0:
+                import math
+                from qgen import cart_point, TOP
+                sg = f["segments"][0]
+                th = math.radians(sg["angle"][0])
+                radius = wj.get("coordinate system", {}).get("radius", 6371000.0)
+                c0, c1 = f["coordinates"]
+                tt = rng.uniform(0.1, 0.9)
+                lat = c0[1] + tt * (c1[1] - c0[1])
+                lon_t = c0[0] + tt * (c1[0] - c0[0])
+                al = rng.uniform(0.15, 0.95) * sg["length"]
+                off = rng.uniform(0.1, 0.9) * sg["thickness"][0]
+                reach = al * math.cos(th) - off * math.sin(th)
+                side = 1.0 if f["dip point"][0] > lon_t else -1.0
+                lon = lon_t + side * math.degrees(reach / (radius * math.cos(math.radians(lat))))
+                d = float(round(f.get("min depth", 0.0) + al * math.sin(th) + off * math.cos(th)))
+                pos = cart_point(True, lon, lat, d, radius, TOP)
             if polar and qi % 4 != 0:
                 import math
                 from qgen import cart_point, TOP
